@@ -269,7 +269,7 @@ theorem governs_cases (enforceNew : Bool) (fr : Content) (d : RuleDefault) :
         | none => rfl
         | some v =>
           simp only
-          by_cases hp : (parseValue v).print = "rule:".toList ++ d.name
+          by_cases hp : (parseValue v).print = rulePrefix ++ d.name
           · simp only [hp, not_true_eq_false, ↓reduceIte]
           · simp only [hp, not_false_eq_true, ↓reduceIte]
 
